@@ -85,8 +85,9 @@ Qed.
 
 Lemma u_1_max_range w : 0 <= u_1_max ROps w <= 1.
 Proof.
-  unfold u_1_max, e_1_min, c1. rsimpl. pose proof (COS_bound (deg2rad ROps (w / c2 ROps))) as [A B].
-  split; nra.
+  unfold u_1_max, e_1_min, c1. rsimpl.
+  match goal with |- context [cos ?t] => pose proof (COS_bound t) as [A B]; generalize dependent (cos t) end.
+  intros e A B. split; nra.
 Qed.
 
 Lemma three_uniform_local_unit n num1 num2 w q :
@@ -100,13 +101,13 @@ Qed.
 Lemma ax2qu_unit x y z w : x * x + y * y + z * z = 1 ->
   qnorm2 ROps (ax2qu_single ROps x y z w) = 1.
 Proof.
-  intros Hn. unfold ax2qu_single. cbv zeta. rsimpl.
+  intros Hn. unfold qnorm2, ax2qu_single. cbv zeta. rsimpl.
   match goal with |- context [if ?b then _ else _] => destruct b end.
-  - unfold qnorm2. rsimpl. ring.
+  - ring.
   - pose proof (pyth (w * (1 / 2))) as P.
     set (c := cos (w * (1 / 2))) in *. set (s := sin (w * (1 / 2))) in *.
     replace (c * c + x * s * (x * s) + y * s * (y * s) + z * s * (z * s)) with 1 by nsatz.
-    rewrite sqrt_1. unfold qnorm2. rsimpl. field_simplify. nsatz.
+    rewrite sqrt_1. transitivity (c * c + (x * x + y * y + z * z) * (s * s)); [field | rewrite Hn; lra].
 Qed.
 
 Definition axis_unit (a : RQ) : Prop := let '(x, y, z, _) := a in x * x + y * y + z * z = 1.
@@ -117,7 +118,7 @@ Proof.
   intros Hn s. assert (Hp : 0 < x * x + y * y + z * z) by nra.
   assert (Hs : s * s = x * x + y * y + z * z) by (apply sqrt_sqrt; lra).
   assert (Hs0 : 0 < s) by (apply sqrt_lt_R0; exact Hp).
-  field_simplify; [|lra]. rewrite <- Hs. field. lra.
+  transitivity ((x * x + y * y + z * z) / (s * s)); [field; lra | rewrite Hs; field; lra].
 Qed.
 
 Lemma ho2ax_axis_unit h0 h1 h2 : axis_unit (ho2ax_single ROps h0 h1 h2).
@@ -221,23 +222,28 @@ Proof.
   nra.
 Qed.
 
+Lemma omax_le a b L : a <= L -> b <= L -> o_max ROps a b <= L.
+Proof. intros. unfold o_max. rsimpl. destruct (Rltb a b); lra. Qed.
+
 Lemma cubo_cell_kept N i j k : (0 < N)%Z ->
   (- N < i <= N)%Z -> (- N < j <= N)%Z -> (- N < k <= N)%Z ->
   length (cubo_cell ROps (semi_edge_length ROps / IZR N) i j k) = 1%nat.
 Proof.
-  intros HN Hi Hj Hk. unfold cubo_cell, max_abs3, o_max. rsimpl.
-  pose proof (coord_in_cube N i HN Hi). pose proof (coord_in_cube N j HN Hj).
-  pose proof (coord_in_cube N k HN Hk).
-  match goal with |- context [if Rltb ?a ?b then [] else _] => destruct (Rltb a b) eqn:E end; [|reflexivity].
-  apply Rltb_true in E. exfalso.
-  repeat match type of E with context [if Rltb ?a ?b then _ else _] => destruct (Rltb a b) end; lra.
+  intros HN Hi Hj Hk. unfold cubo_cell, max_abs3.
+  pose proof (coord_in_cube N i HN Hi) as H1. pose proof (coord_in_cube N j HN Hj) as H2.
+  pose proof (coord_in_cube N k HN Hk) as H3.
+  pose proof (omax_le _ _ _ (omax_le _ _ _ H1 H2) H3) as H.
+  change (o_mul ROps) with Rmult. change (o_ofZ ROps) with IZR. change (o_abs ROps) with Rabs.
+  destruct (o_ltb ROps _ _) eqn:E; [|reflexivity].
+  apply Rltb_true in E. lra.
 Qed.
 
 Lemma flat_map_const_length {A B} (f : A -> list B) (l : list A) m :
   (forall a, In a l -> length (f a) = m) -> length (flat_map f l) = (length l * m)%nat.
 Proof.
   induction l as [|a l IH]; intros H; [reflexivity|].
-  cbn [flat_map length]. rewrite app_length, H, IH by (auto; intros; apply H; right; auto); [|left; auto]. lia.
+  cbn [flat_map length]. rewrite app_length.
+  rewrite (H a) by (left; reflexivity). rewrite IH by (intros b Hb; apply H; right; exact Hb). lia.
 Qed.
 
 Lemma cubochoric_size N : (0 < N)%Z ->
